@@ -527,11 +527,18 @@ def realise(case, tables, r, ctx):
             assign(case, row, src, vi, raw_value(r, tables, row, src, ty, ctx))
     elif f[0] == 'mixed':
         rows = tables.rows_for(case['command'], case['backend'])
+        used_groups = set()
         for row in r.sample(rows, min(len(rows), r.choice([2, 3, 4, 6]))):
             if row['dest'] in ('configuration_file', 'profile', 'repository'):
                 continue
             cs = combos(row)
             combo = r.choice(cs)
+            if 'cli' in combo:
+                g = row['cli'][combo['cli']]['group']
+                if g is not None and g in used_groups:      # e.g. --shared and --clone: exclusive across two options
+                    combo = {k: v for k, v in combo.items() if k != 'cli'}
+                elif g is not None:
+                    used_groups.add(g)
             if row['file'] and len(row['file']) >= 2 and 'prof' in combo and 'dflt' in combo and combo['prof'] != combo['dflt']:
                 combo = dict(combo, dflt=combo['prof'])      # cross-key combinations are family A's business
             if row['scope'] == 2:
